@@ -70,15 +70,17 @@ def build(spec, cfg=None, setup=True):
     if cfg:
         apply_config(manager, cfg)
     manager.registerModel(model)
-    g = phase_guesses(pot, Tn)
-    if g is None:
+    ph = pot.phases(Tn)
+    if ph["high"] is None or ph["low"] is None:
         raise ValueError("phases do not exist at Tn")
-    hi, lo = g
-    # guesses need not be exact: perturb them by 1 % of the field scale
+    # guesses need not be exact: perturb them by 1 % of the field scale (in physical
+    # fields, so that relabelled runs receive the *same* physical guess)
     fs = pot.field_scale(Tn)
+    hi = pot.to_code(ph["high"] + 0.01 * fs)
+    lo = pot.to_code(ph["low"] - 0.01 * fs)
     phaseInfo = WallGo.PhaseInfo(temperature=Tn,
-                                 phaseLocation1=WallGo.Fields(hi + 0.01 * fs),
-                                 phaseLocation2=WallGo.Fields(lo - 0.01 * fs))
+                                 phaseLocation1=WallGo.Fields(hi),
+                                 phaseLocation2=WallGo.Fields(lo))
     Tc = pot.Tc()
     tscale = (Tc - Tn) if np.isfinite(Tc) and Tc > Tn else 0.1 * Tn
     tscale = float(spec.get("tscale_over_s", tscale / s) * s)
